@@ -103,15 +103,33 @@ def ev(t, m):
             return len(ev(t[2][0], m))
         if f == ('name', 'str') and len(t[2]) == 1:
             return str(ev(t[2][0], m))
+        if f == ('name', 'divmod') and len(t[2]) == 2:
+            return list(divmod(ev(t[2][0], m), ev(t[2][1], m)))
+        if f == ('name', 'int') and len(t[2]) == 1:
+            return int(ev(t[2][0], m))
+        if f[0] == 'attr' and f[2] == 'get' and 1 <= len(t[2]) <= 2 and f[1][0] in ('dict', 'name', 'ite'):
+            try:
+                base = ev(f[1], m)
+            except EvalUnknown:
+                base = None
+            if isinstance(base, dict):
+                key = ev(t[2][0], m)
+                return base.get(key, ev(t[2][1], m) if len(t[2]) > 1 else None)
         if f[0] == 'attr' and f[2] == 'lower' and not t[2]:
             return ev(f[1], m).lower()
         if f[0] == 'attr' and f[2] == 'upper' and not t[2]:
             return ev(f[1], m).upper()
         return m.calls(ev, t)
+    if k == 'tupidx':
+        return ev(t[1], m)[t[2]]
+    if k == 'sub' and t[2][0] != 'slice':
+        return ev(t[1], m)[ev(t[2], m)]
     if k in ('tuple', 'list'):
         return [ev(x, m) for x in t[1]]
     if k == 'set':
         return {ev(x, m) for x in t[1]}
+    if k == 'dict':
+        return {ev(a, m): ev(b, m) for a, b in t[1]}
     if k == 'fstr':
         return ''.join(str(p[1]) if p[0] == 'const' else str(ev(p[1], m)) for p in t[1])
     raise EvalUnknown(f"term kind {k}: {sym.show(t)[:80]}")
